@@ -440,3 +440,143 @@ func c07Bookkeeping(p *load.Prog, r *oblig.Run) {
 		o.Unknown("cannot find how DeepEqualNodes remembers which right children were paired")
 	}
 }
+
+// c07EqualityReadsOnly (R07.l): comparing leaves both sides as they were. DeepEqual, DeepEqualNodes and every Equals
+// method of the root package (and the repository helpers DeepEqualNodes calls directly) contain no store, and no map
+// update, whose address is derived from one of the function's parameters - through element and field addresses,
+// re-slices, loads and the results of calls on them (`right.Nodes()` hands out the node's own children slice). Stores
+// into locals and into maps or slices the function made itself are bookkeeping. A search that "moves matched children
+// out of the way" inside the received slice re-orders the children of the right operand: after DeepEqual(copy, source)
+// the source serialises differently.
+func c07EqualityReadsOnly(p *load.Prog, r *oblig.Run) {
+	r.Rule("R07.l", "equality functions write nothing that is reachable from their operands", 10)
+	var fns []*ssa.Function
+	seen := map[*ssa.Function]bool{}
+	addFn := func(f *ssa.Function) {
+		if f != nil && !seen[f] && len(f.Blocks) > 0 && f.Synthetic == "" {
+			seen[f] = true
+			fns = append(fns, f)
+		}
+	}
+	den := p.Func(load.PkgRoot, "DeepEqualNodes")
+	addFn(p.Func(load.PkgRoot, "DeepEqual"))
+	addFn(den)
+	if den != nil {
+		for _, c := range su.Calls(den) {
+			if h := c.Common().StaticCallee(); h != nil && pkgPathOf(h) == load.PkgRoot {
+				addFn(h)
+			}
+		}
+	}
+	for _, fn := range p.Repo {
+		if fn.Name() == "Equals" && fn.Signature.Recv() != nil && pkgPathOf(fn) == load.PkgRoot {
+			addFn(fn)
+		}
+	}
+	if den == nil {
+		r.Add("R07.l", "anchor", "-", "anchor").Unknown("DeepEqualNodes not found")
+	}
+	clean, dirty, helpers := map[*ssa.Parameter]bool{}, map[*ssa.Parameter]bool{}, map[*ssa.Function]bool{}
+	var fromParam func(v ssa.Value, d int) (string, bool)
+	fromParam = func(v ssa.Value, d int) (string, bool) {
+		if d > 12 {
+			return "", false
+		}
+		switch x := v.(type) {
+		case *ssa.Parameter:
+			if clean[x] {
+				return "", false // a helper's parameter that receives only the caller's own bookkeeping
+			}
+			return x.Name(), true
+		case *ssa.IndexAddr:
+			return fromParam(x.X, d+1)
+		case *ssa.FieldAddr:
+			return fromParam(x.X, d+1)
+		case *ssa.Slice:
+			return fromParam(x.X, d+1)
+		case *ssa.UnOp:
+			if x.Op == token.MUL {
+				return fromParam(x.X, d+1)
+			}
+		case *ssa.ChangeType:
+			return fromParam(x.X, d+1)
+		case *ssa.ChangeInterface:
+			return fromParam(x.X, d+1)
+		case *ssa.TypeAssert:
+			return fromParam(x.X, d+1)
+		case *ssa.Extract:
+			return fromParam(x.Tuple, d+1)
+		case *ssa.Phi:
+			for _, e := range x.Edges {
+				if n, ok := fromParam(e, d+1); ok {
+					return n, true
+				}
+			}
+		case *ssa.Call:
+			// storage handed out by a call on an operand (Nodes() returns the children slice itself)
+			args := x.Call.Args
+			if x.Call.IsInvoke() {
+				args = append([]ssa.Value{x.Call.Value}, args...)
+			}
+			for _, a := range args {
+				if n, ok := fromParam(a, d+1); ok {
+					return n, true
+				}
+			}
+		}
+		return "", false
+	}
+	// helpers of DeepEqualNodes: a parameter is an operand only if some call in DeepEqualNodes hands over something
+	// reached from DeepEqualNodes' own operands (a map or slice DeepEqualNodes made itself is its bookkeeping)
+	if den != nil {
+		for _, c := range su.Calls(den) {
+			h := c.Common().StaticCallee()
+			if h == nil || !seen[h] || h == den || h.Name() == "DeepEqual" || h.Name() == "Equals" || c.Common().IsInvoke() {
+				continue
+			}
+			for i, a := range c.Common().Args {
+				if i >= len(h.Params) {
+					break
+				}
+				if _, tainted := fromParam(a, 0); tainted {
+					dirty[h.Params[i]] = true
+				}
+			}
+			helpers[h] = true
+		}
+		for h := range helpers {
+			for _, q := range h.Params {
+				if !dirty[q] {
+					clean[q] = true
+				}
+			}
+		}
+	}
+	sort.Slice(fns, func(i, j int) bool { return fns[i].String() < fns[j].String() })
+	for _, fn := range fns {
+		o := r.Add("R07.l", "writes of "+load.FuncName(fn), p.Pos(fn.Pos()), "stores through the operands")
+		bad := ""
+		for _, b := range fn.Blocks {
+			for _, ins := range b.Instrs {
+				switch x := ins.(type) {
+				case *ssa.Store:
+					if _, isAlloc := x.Addr.(*ssa.Alloc); isAlloc {
+						continue
+					}
+					if n, ok := fromParam(x.Addr, 0); ok && bad == "" {
+						bad = "the store at " + p.Pos(x.Pos()) + " writes into storage reached from the operand " + n
+					}
+				case *ssa.MapUpdate:
+					if n, ok := fromParam(x.Map, 0); ok && bad == "" {
+						bad = "the map update at " + p.Pos(x.Pos()) + " writes into a map reached from the operand " + n
+					}
+				}
+			}
+		}
+		if bad != "" {
+			o.Fail(bad + ": a comparison changes what it compares (children re-ordered or replaced in the operand's own list) - a tree is no longer equal to, or serialises differently from, what it was before it was compared")
+		} else {
+			o.OK("no store or map update through a parameter")
+		}
+	}
+}
